@@ -159,6 +159,94 @@ func kv(line, key string) string {
 	return ""
 }
 
+// c08Verify checks what a fresh pike serves from dir after the history child (output hout) was killed.
+func c08Verify(c *Ctx, scn string, dir string, hout string, what string) (complete bool) {
+	complete = strings.Contains(hout, "COMPLETE")
+	// what was delivered before the kill
+	delivered := map[string][]string{} // uri -> serials delivered
+	purged := map[string]bool{}
+	floor := map[string]int64{} // highest serial of a key seen before its purge
+	var maxSerial int64
+	var clock int64
+	sc := bufio.NewScanner(strings.NewReader(hout))
+	for sc.Scan() {
+		l := sc.Text()
+		if !strings.HasPrefix(l, "DONE") {
+			continue
+		}
+		f := strings.Fields(l)
+		clock, _ = strconv.ParseInt(kv(l, "clock"), 10, 64)
+		if f[2] == "PURGE" {
+			purged[f[3]] = true
+			delivered[f[3]] = nil
+			floor[f[3]] = maxSerial
+			continue
+		}
+		if sv, err := strconv.ParseInt(kv(l, "serial"), 10, 64); err == nil && sv > maxSerial {
+			maxSerial = sv
+		}
+		if kv(l, "label") == "fetching" || kv(l, "label") == "hit" {
+			delivered[f[3]] = append(delivered[f[3]], kv(l, "serial"))
+		}
+	}
+	rout, rerr := runChild("-c08child", "recover", "-c08dir", dir, "-c08clock", strconv.FormatInt(clock, 10))
+	kase := map[string]interface{}{"kill": what, "history_output": hout, "recovery_output": rout}
+	if rerr != nil || strings.Contains(rout, "OPENFAIL") {
+		c.Violation(scn, "does-not-start-after-kill", fmt.Sprintf("%s: recovery failed: %v %s", what, rerr, trunc([]byte(rout))), nil, kase, nil)
+		return
+	}
+	refetched := map[string]bool{}
+	sc = bufio.NewScanner(strings.NewReader(rout))
+	for sc.Scan() {
+		l := sc.Text()
+		if !strings.HasPrefix(l, "SERVED") {
+			continue
+		}
+		f := strings.Fields(l)
+		uri := f[2]
+		off, _ := strconv.ParseInt(kv(l, "off"), 10, 64)
+		label := kv(l, "label")
+		if kv(l, "status") != "200" || kv(l, "uri") != uri {
+			c.Violation(scn, "served-altered-or-error-after-kill", l, nil, kase, nil)
+			continue
+		}
+		if label == "hit" {
+			switch {
+			case uri == "/k2":
+				c.Violation(scn, "hit-for-pass-marker-became-hit", l, nil, kase, nil)
+			case refetched[uri]:
+				// served from the refetch of an earlier recovery round; must be within its own lifetime
+				if off > c08RealT {
+					// refetched at off 0/300, lifetime 600 -> at 650 the one from off 0 is expired
+				}
+			case off > c08RealT:
+				c.Violation(scn, "served-after-original-expiry", l, nil, kase, nil)
+			default:
+				ok := false
+				for _, s := range delivered[uri] {
+					if s == kv(l, "serial") {
+						ok = true
+					}
+				}
+				// a response persisted by the interrupted operation but not yet delivered is legitimate content too
+				if sv, _ := strconv.ParseInt(kv(l, "serial"), 10, 64); !ok && !complete && (!purged[uri] || sv > floor[uri]) {
+					ok = true // fetched by the interrupted operation, after any completed purge
+				}
+				if !ok {
+					sig := "served-content-never-delivered"
+					if purged[uri] {
+						sig = "purged-content-served-after-kill"
+					}
+					c.Violation(scn, sig, fmt.Sprintf("%s (delivered serials %v)", l, delivered[uri]), nil, kase, nil)
+				}
+			}
+		} else if label == "fetching" {
+			refetched[uri] = true
+		}
+	}
+	return
+}
+
 func c08Real(c *Ctx) {
 	if !c.Want("real-badger-kill") {
 		return
@@ -185,93 +273,75 @@ func c08Real(c *Ctx) {
 		dir := filepath.Join(root, fmt.Sprintf("k%d", n))
 		os.MkdirAll(dir, 0o755)
 		hout, _ := runChild("-c08child", "history", "-c08dir", dir, "-c08kill", strconv.Itoa(n))
-		complete := strings.Contains(hout, "COMPLETE")
-		// what was delivered before the kill
-		delivered := map[string][]string{} // uri -> serials delivered
-		purged := map[string]bool{}
-		floor := map[string]int64{} // highest serial of a key seen before its purge
-		var maxSerial int64
-		var clock int64
-		sc := bufio.NewScanner(strings.NewReader(hout))
-		for sc.Scan() {
-			l := sc.Text()
-			if !strings.HasPrefix(l, "DONE") {
-				continue
-			}
-			f := strings.Fields(l)
-			clock, _ = strconv.ParseInt(kv(l, "clock"), 10, 64)
-			if f[2] == "PURGE" {
-				purged[f[3]] = true
-				delivered[f[3]] = nil
-				floor[f[3]] = maxSerial
-				continue
-			}
-			if sv, err := strconv.ParseInt(kv(l, "serial"), 10, 64); err == nil && sv > maxSerial {
-				maxSerial = sv
-			}
-			if kv(l, "label") == "fetching" || kv(l, "label") == "hit" {
-				delivered[f[3]] = append(delivered[f[3]], kv(l, "serial"))
-			}
-		}
-		rout, rerr := runChild("-c08child", "recover", "-c08dir", dir, "-c08clock", strconv.FormatInt(clock, 10))
 		st.Execs++
-		kase := map[string]interface{}{"kill_boundary": n, "history_output": hout, "recovery_output": rout}
-		if rerr != nil || strings.Contains(rout, "OPENFAIL") {
-			c.Violation("real-badger-kill", "does-not-start-after-kill", fmt.Sprintf("kill at boundary %d: recovery failed: %v %s", n, rerr, trunc([]byte(rout))), nil, kase, nil)
-			continue
-		}
-		refetched := map[string]bool{}
-		sc = bufio.NewScanner(strings.NewReader(rout))
-		for sc.Scan() {
-			l := sc.Text()
-			if !strings.HasPrefix(l, "SERVED") {
-				continue
-			}
-			f := strings.Fields(l)
-			uri := f[2]
-			off, _ := strconv.ParseInt(kv(l, "off"), 10, 64)
-			label := kv(l, "label")
-			if kv(l, "status") != "200" || kv(l, "uri") != uri {
-				c.Violation("real-badger-kill", "served-altered-or-error-after-kill", l, nil, kase, nil)
-				continue
-			}
-			if label == "hit" {
-				switch {
-				case uri == "/k2":
-					c.Violation("real-badger-kill", "hit-for-pass-marker-became-hit", l, nil, kase, nil)
-				case refetched[uri]:
-					// served from the refetch of an earlier recovery round; must be within its own lifetime
-					if off > c08RealT {
-						// refetched at off 0/300, lifetime 600 -> at 650 the one from off 0 is expired
-					}
-				case off > c08RealT:
-					c.Violation("real-badger-kill", "served-after-original-expiry", l, nil, kase, nil)
-				default:
-					ok := false
-					for _, s := range delivered[uri] {
-						if s == kv(l, "serial") {
-							ok = true
-						}
-					}
-					// a response persisted by the interrupted operation but not yet delivered is legitimate content too
-					if sv, _ := strconv.ParseInt(kv(l, "serial"), 10, 64); !ok && !complete && (!purged[uri] || sv > floor[uri]) {
-						ok = true // fetched by the interrupted operation, after any completed purge
-					}
-					if !ok {
-						sig := "served-content-never-delivered"
-						if purged[uri] {
-							sig = "purged-content-served-after-kill"
-						}
-						c.Violation("real-badger-kill", sig, fmt.Sprintf("%s (delivered serials %v)", l, delivered[uri]), nil, kase, nil)
-					}
-				}
-			} else if label == "fetching" {
-				refetched[uri] = true
-			}
-		}
+		complete := c08Verify(c, "real-badger-kill", dir, hout, fmt.Sprintf("SIGKILL at store-call boundary %d", n))
+		os.RemoveAll(dir)
 		if complete && n > 4 {
 			// the history needs fewer boundaries than n: everything beyond is the same run
 			break
+		}
+	}
+	st.States, st.Transitions, st.Nontrivial = st.Execs*2, st.Execs*2, st.Execs
+	st.NOutcomes = int(st.Execs)
+	if c.Thorough() || os.Getenv("PIKEMC_C08_STRACE") != "" {
+		c08Strace(c, root)
+	}
+}
+
+// c08Strace kills the history child on entry to its N-th syscall of each class, for every N
+// (strace fault injection), i.e. also inside badger's own file I/O.
+func c08Strace(c *Ctx, root string) {
+	if !c.Want("real-badger-syscall-kill") {
+		return
+	}
+	if _, err := exec.LookPath("strace"); err != nil {
+		return
+	}
+	st := c.Stat("real-badger-syscall-kill", "enumeration")
+	classes := []string{"write", "pwrite64", "fsync", "fdatasync", "msync", "ftruncate", "renameat", "rename", "unlinkat", "openat", "mmap", "munmap", "madvise", "close", "read", "fcntl"}
+	st.Bounds = fmt.Sprintf("SIGKILL on entry to the N-th syscall, for every N until the history completes, classes %v", classes)
+	var idx int64
+	for _, cl := range classes {
+		limit := 400
+		if cl == "mmap" || cl == "munmap" || cl == "close" || cl == "openat" {
+			limit = 150 // mostly runtime start-up; the tail belongs to badger
+		}
+		for n := 1; n <= limit; n++ {
+			idx++
+			if !c.Mine(idx) {
+				continue
+			}
+			if c.TimeUp() {
+				st.Exhaustive = false
+				st.CapNote = "deadline"
+				return
+			}
+			dir := filepath.Join(root, fmt.Sprintf("s-%s-%d", cl, n))
+			os.MkdirAll(dir, 0o755)
+			cmd := exec.Command("strace", "-f", "-qq", "-o", "/dev/null", "-e", "trace="+cl, "-e", fmt.Sprintf("inject=%s:signal=KILL:when=%d", cl, n), os.Args[0], "-c08child", "history", "-c08dir", dir, "-c08kill", "-1")
+			var out bytes.Buffer
+			cmd.Stdout = &out
+			cmd.Stderr = &out
+			done := make(chan error, 1)
+			if err := cmd.Start(); err != nil {
+				os.RemoveAll(dir)
+				continue
+			}
+			go func() { done <- cmd.Wait() }()
+			select {
+			case <-done:
+			case <-time.After(90 * time.Second):
+				cmd.Process.Kill()
+			}
+			hout := out.String()
+			st.Execs++
+			complete := c08Verify(c, "real-badger-syscall-kill", dir, hout, fmt.Sprintf("SIGKILL on entry to %s call #%d", cl, n))
+			os.RemoveAll(dir)
+			if complete {
+				// the history finished before the N-th such call: all larger N are the same run. Other shards
+				// reach the same conclusion on their own indices.
+				break
+			}
 		}
 	}
 	st.States, st.Transitions, st.Nontrivial = st.Execs*2, st.Execs*2, st.Execs
